@@ -34,6 +34,9 @@ def sh(cmd, cwd=None, env=None, timeout=3600):
 def main():
     a = sys.argv[1:]
     keep = None
+    checks_only = "--checks-only" in a      # patch + checks only: demo / suite results are taken from the kept meta.json
+    if checks_only:                         # (valid while /repo's HEAD is the one those were run against)
+        a.remove("--checks-only")
     if "--keep" in a:
         i = a.index("--keep")
         keep = a[i + 1]
@@ -46,23 +49,36 @@ def main():
                 else f"/venv/bin/python -m pytest -q -p no:cacheprovider {src}/{demo}")
     res = {"src": src, "worktree": wt, "properties": props, "tier": tier}
     sh("git checkout -- . && git clean -fdq", cwd=wt)
-    rc, out, t = sh(demo_cmd, cwd=wt, env=pyenv, timeout=600)
-    res["demo_clean_rc"] = rc
+    prior = {}
+    if checks_only:
+        try:
+            prior = json.load(open(os.path.join(src, "meta.json"))).get("trial", {})
+        except Exception:
+            prior = {}
+        res["demo_clean_rc"] = prior.get("demo_clean_rc")
+        res["checks_only"] = True
+    else:
+        rc, out, t = sh(demo_cmd, cwd=wt, env=pyenv, timeout=600)
+        res["demo_clean_rc"] = rc
     rc, out, t = sh(f"git apply {src}/patch.diff", cwd=wt)
     if rc != 0:
         res["apply_error"] = out[-500:]
         print(json.dumps(res, indent=1))
         return 2
     try:
-        for _attempt in (1, 2):   # the suite has timing-sensitive tests: one retry when the box is loaded
-            rc, out, t = sh("/venv/bin/python -m pytest -q -p no:cacheprovider --timeout=900", cwd=wt, env=pyenv, timeout=1800)
-            if rc == 0:
-                break
-        res["suite_rc"] = rc
-        res["suite_tail"] = out.strip().split("\n")[-1]
-        rc, out, t = sh(demo_cmd, cwd=wt, env=pyenv, timeout=600)
-        res["demo_patched_rc"] = rc
-        res["demo_patched_tail"] = out.strip()[-400:]
+        if checks_only:
+            for k in ("suite_rc", "suite_tail", "demo_patched_rc"):
+                res[k] = prior.get(k)
+        else:
+            for _attempt in (1, 2):   # the suite has timing-sensitive tests: one retry when the box is loaded
+                rc, out, t = sh("/venv/bin/python -m pytest -q -p no:cacheprovider --timeout=900", cwd=wt, env=pyenv, timeout=1800)
+                if rc == 0:
+                    break
+            res["suite_rc"] = rc
+            res["suite_tail"] = out.strip().split("\n")[-1]
+            rc, out, t = sh(demo_cmd, cwd=wt, env=pyenv, timeout=600)
+            res["demo_patched_rc"] = rc
+            res["demo_patched_tail"] = out.strip()[-400:]
         res["checks"] = {}
         for p in props:
             rc, out, t = sh(f"./check {p} {tier}", cwd=VERIF, env={"VERIF_REPO": wt}, timeout=7200)
@@ -98,7 +114,9 @@ def main():
             meta = json.load(open(src + "/meta.json"))
         except Exception:
             pass
-        meta["trial"] = {k: res[k] for k in ("demo_clean_rc", "suite_rc", "suite_tail", "demo_patched_rc", "checks", "caught_by", "tier")}
+        meta["trial"] = {k: res.get(k) for k in ("demo_clean_rc", "suite_rc", "suite_tail", "demo_patched_rc", "checks", "caught_by", "tier")}
+        if checks_only:
+            meta["trial"]["checks_rerun_only"] = True
         meta["ran"] = ["demo on the clean worktree (exit 0)", "unedited pytest suite with the patch applied",
                        "demo with the patch applied (exit != 0)",
                        "VERIF_REPO=<scratch worktree> ./check <property> %s" % tier]
